@@ -15,6 +15,7 @@ def _next():
 
 def reset():
     del LOG[:]
+    del TOKS[:]
     _count[0] = 0
 
 
@@ -65,6 +66,23 @@ def v_eager(*args, **kwargs):
     """records a deep copy of what it receives AT CALL TIME (eager: everything is there)"""
     LOG.append(("VEager", _next(), copy.deepcopy(args), copy.deepcopy(kwargs)))
     return ("eager", copy.deepcopy(args), copy.deepcopy(kwargs))
+
+
+class Tok(object):
+    """what the !VTok tag makes: a fresh object per occurrence of the tag (equal only to itself)"""
+
+    def __init__(self, ident):
+        self.ident = ident
+
+
+TOKS = []  # every Tok made since reset()
+
+
+def v_tok(*args, **kwargs):
+    t = Tok(_next())
+    TOKS.append(t)
+    LOG.append(("VTok", t.ident, args, kwargs))
+    return t
 
 
 def v_lazy(*args, **kwargs):
